@@ -32,6 +32,8 @@ BASE = {
     "m2.f90": "module m2\n  implicit none\n  include 'decl2.f90'\n  private :: inc_priv\nend module m2\n",
     "p2.f90": "module host2\n  implicit none\n  integer :: inc_priv\ncontains\n  subroutine s2()\n    use m2\n    inc_priv = 1\n"
               "    inc_other = 2\n  end subroutine s2\nend module host2\n",
+    # a unit with nothing to link itself (no EXTENDS, no procedure pointers): only a variable of a type from another file
+    "plain.f90": "program plainp\n  use tmod\n  implicit none\n  type(shape) :: xx\n  xx%old_c = 1\nend program plainp\n",
     "long.f90": "module longm\n  integer :: a_rather_long_name_for_a_variable = 1234567890 + 1234567890 + 12345\n"
                 "  ! a comment line that is longer than the configured sixty characters, clearly\nend module longm\n",
     "w.f90": "subroutine uses_inc()\n  include 'inc.f90'\n  from_inc = 1\nend subroutine uses_inc\n",
